@@ -303,3 +303,151 @@ ASSUME08 = [
     "exit status: any non-zero status counts as failure status; signals also end with status 1 (context cancelled is "
     "reported as an error by errgroup.Wait), which the property permits",
 ]
+
+
+# ----------------------------------------------------------------------------------------------- C10
+def run_script(binp, d, i, strace, rnd):
+    sc = json.load(open(os.path.join(d, "script-%d.json" % i)))
+    wd = os.path.join(d, "run-%d" % i)
+    os.makedirs(wd, exist_ok=True)
+    sp, ap = os.path.join(wd, "sshd-pipe"), os.path.join(wd, "audit-pipe")
+    op = os.path.join(d, "out-%d.log" % i)
+    open(op, "w").close()
+    os.mkfifo(sp)
+    os.mkfifo(ap)
+    cmd = [binp, "--sshd-pipe-path", sp, "--auditd-pipe-path", ap, "--app-events-output", op]
+    if strace:
+        cmd = ["strace", "-f", "-qq", "-e", "trace=write", "-P", op, "-s", "1000000", "-o",
+               os.path.join(d, "strace-%d.txt" % i)] + cmd
+    errf = open(os.path.join(wd, "stderr.txt"), "w")
+    proc = subprocess.Popen(cmd, stdout=errf, stderr=errf, env=dict(os.environ, NODE_NAME="verif-node"), cwd=wd)
+    ok = False
+    try:
+        sw, aw = open_writer(sp, 10), open_writer(ap, 10)
+        if sw is None or aw is None:
+            return False
+        os.set_blocking(sw, True)
+        os.set_blocking(aw, True)
+
+        def feed(fd, lines, burst):
+            j = 0
+            while j < len(lines):
+                n = rnd.choice(burst)
+                os.write(fd, ("\n".join(lines[j:j + n]) + "\n").encode())
+                j += n
+                if rnd.random() < 0.3:
+                    time.sleep(rnd.random() * 0.002)
+        # pads between pid and message as rsyslog's template may produce
+        t1 = threading.Thread(target=feed, args=(sw, sc["sshd"], [1, 1, 2, 5]))
+        t2 = threading.Thread(target=feed, args=(aw, sc["audit"], [1, 3, 10, 40]))
+        order = [t1, t2]
+        rnd.shuffle(order)
+        for t in order:
+            t.start()
+        for t in order:
+            t.join()
+        # wait until the output stops growing
+        last, stable = -1, 0
+        dl = time.time() + 10
+        while time.time() < dl and stable < 6:
+            sz = os.path.getsize(op)
+            stable = stable + 1 if sz == last else 0
+            last = sz
+            time.sleep(0.05)
+        ok = proc.poll() is None
+        os.close(sw)
+        os.close(aw)
+    finally:
+        if proc.poll() is None:
+            proc.send_signal(signal.SIGTERM)
+            try:
+                proc.wait(timeout=5)
+            except subprocess.TimeoutExpired:
+                proc.kill()
+                proc.wait()
+        errf.close()
+        shutil.rmtree(wd, ignore_errors=True)
+    return ok
+
+
+def run_c10(ctx):
+    import random
+    from checks import tracker
+    mc, vac = design(ctx)
+    sp = ctx.tlc("SshdProc", "SshdProc.cfg", workers=4, timeout=300, name="sshdproc")     # write-before-send
+    nsim = 24 if ctx.quick else 160
+    sim = ctx.tlc("TrackerSim", "TrackerSim.cfg", workers=1, timeout=900, simulate="num=%d" % nsim, depth=500,
+                  overrides={"MaxRank": "1", "MaxClean": "0", "MaxT": "0", "WithBad": "FALSE", "MaxEv": "90",
+                             "MaxLogins": "6"}, name="sim")
+    hists = vlib.tlc_prints(sim["stdout"], "HIST")
+    hp = ctx.path("hists.jsonl")
+    tracker.write_hists(hp, hists)
+    d = ctx.path("l3")
+    os.makedirs(d, exist_ok=True)
+    l3 = ctx.go_build("./cmd/l3")
+    g = json.loads(ctx.run([l3, "-mode", "gen", "-in", hp, "-dir", d, "-seed", str(ctx.seed)]).stdout.strip().splitlines()[-1])
+    binp = build_daemon(ctx)
+    rnd = random.Random(ctx.seed)
+    okruns = 0
+    for i in range(g["scripts"]):
+        if run_script(binp, d, i, True, rnd):
+            okruns += 1
+    if okruns < g["scripts"] * 0.8:
+        raise Infra("only %d of %d daemon runs could be carried out" % (okruns, g["scripts"]))
+    tp = ctx.path("trace-l3.ndjson")
+    a = json.loads(ctx.run([l3, "-mode", "analyse", "-in", hp, "-dir", d, "-out", tp, "-seed", str(ctx.seed)]).stdout.strip().splitlines()[-1])
+    hs = tracker.split_trace(tp)
+    bad, _, done = tracker.validate(ctx, hs, "l3", cfg="TrackerTraceL2.cfg")
+    mons = ("CausalOrder", "WholeLines", "LoginLinesOnce", "ExactlyOnce", "Identity", "Silence")
+    seen = set()
+    for hidx, line, what in bad:
+        if what not in mons or what in seen:
+            continue
+        seen.add(what)
+        recs = tracker.hist_of(hs[hidx])
+        last = recs[-1]
+        ctx.violation(what, "%s violated by the output file of the built daemon (script %d: %d sshd lines and %d audit "
+                      "record groups written concurrently): %d output lines, torn=%s, writes not one-line=%s; line kinds %s"
+                      % (what, hidx, sum(1 for r in recs if r.get("k") == "login"),
+                         sum(1 for r in recs if r.get("k") == "audit"), last.get("lines", 0), last.get("torn"),
+                         last.get("badwrites"), [(x["kind"], x["id"]) for x in last.get("stream", [])][:40]),
+                      {"kind": "daemon-output", "script": hidx, "calls": recs[1:-1], "observed": last})
+    # binding self-test
+    muts = []
+    for hh in hs[:4]:
+        recs = tracker.hist_of(hh)
+        st = recs[-1].get("stream", [])
+        acts = [i for i, x in enumerate(st) if x["kind"] == "action"]
+        if not acts:
+            continue
+        a1 = json.loads(json.dumps(recs)); s1 = a1[-1]["stream"]
+        li = [i for i, x in enumerate(s1) if x["kind"] == "login" and x["id"] == s1[acts[0]]["id"]][0]
+        s1.insert(acts[0] + 1, s1.pop(li)); muts.append(a1)                         # login line after its action
+        a2 = json.loads(json.dumps(recs)); a2[-1]["torn"] = 1; muts.append(a2)     # a torn line
+        a3 = json.loads(json.dumps(recs)); a3[-1]["stream"].append(dict(a3[-1]["stream"][li])); a3[-1]["lines"] += 1
+        a3[-1]["writes"] += 1; muts.append(a3)                                      # a login line twice
+    mh = []
+    for i, m in enumerate(muts):
+        m[0]["h"] = i
+        mh.append([json.dumps(r, separators=(",", ":")) + "\n" for r in m])
+    mbad, _, _ = tracker.validate(ctx, mh, "l3self", parts=1, cfg="TrackerTraceL2.cfg")
+    if len({b[0] for b in mbad if b[2] in mons}) != len(muts) or not muts:
+        raise Infra("binding self-test: corrupted daemon outputs accepted")
+    outs = [tracker.hist_of(hh)[-1] for hh in hs]
+    return {
+        "states": mc["distinct"] + sp["distinct"], "transitions": mc["generated"] + sp["generated"],
+        "traces_validated_against_impl": len(hs),
+        "samples": [{"script": i, "output_lines": o.get("lines"), "writes_seen_by_strace": o.get("writes"),
+                     "first_lines": [(x["kind"], x["id"]) for x in o.get("stream", [])][:12]} for i, o in enumerate(outs[:3])],
+        "daemon_runs": len(hs), "output_lines": a["output_lines"], "user_actions": a["actions"],
+        "write_calls_checked": sum(o.get("writes", 0) for o in outs),
+        "binding_selftest_mutants_rejected": len(muts), "checker_cmd": sp["cmd"], "exhaustive": False,
+    }
+
+
+ASSUME10 = [
+    "a write(2) on an O_APPEND regular file is atomic (Linux); the check establishes that every event is exactly one "
+    "write call holding exactly one line (strace -e trace=write -P <output>)",
+    "identity of a UserAction = exact equality of subjects, source and target with a UserLogin line of the same file",
+    "scenarios: TLC-simulated histories of up to six concurrent sessions, both FIFOs fed concurrently in bursts",
+]
